@@ -71,6 +71,9 @@ func (s *Server) patchHandlerFunc(w http.ResponseWriter, r *http.Request) {
 	case errors.Is(err, patch.ErrPatchTooLate):
 		http.Error(w, err.Error(), http.StatusGone)
 		return
+	case errors.Is(err, patch.ErrPatchNoTTL):
+		http.Error(w, "patch requests need patch_<ttl> in the URL: "+err.Error(), http.StatusBadRequest)
+		return
 	case err != nil:
 		slog.Error("MPDDiff", "err", err)
 		http.Error(w, "MPDDiff", http.StatusInternalServerError)
